@@ -201,6 +201,14 @@ func (g *c22Gen) policy() (data.ExpirePolicy, string) {
 			kinds = append(kinds, "tags")
 		}
 	}
+	if len(kinds) > 0 && g.rng.chance(12) {
+		// tag rule next to a time rule: decisions of one rule must not cancel another's
+		p.Tags = append(p.Tags, g.tagList())
+		if p.Within.Zero() {
+			p.Within = g.dur()
+		}
+		kinds = append(kinds, "tags", "within")
+	}
 	if len(kinds) == 0 {
 		return p, "empty"
 	}
@@ -303,6 +311,24 @@ func engineC22(c *vctx) error {
 		data.ExpirePolicy{Tags: []data.TagList{{""}, {"a", "b"}}})
 	c22Run(c, "tags", data.Snapshots{mk("2021-01-04T00:00:00Z"), mk("2021-01-03T00:00:00Z", "a")},
 		data.ExpirePolicy{Tags: []data.TagList{{"x", ""}, {"", "x"}}})
+	// both sides of New Year inside one ISO week / same week number in different ISO years
+	ny := data.Snapshots{mk("2016-01-02T10:00:00Z"), mk("2015-12-30T10:00:00Z"), mk("2015-12-22T10:00:00Z")}
+	ny2 := data.Snapshots{mk("2018-12-31T10:00:00Z"), mk("2018-01-03T10:00:00Z"), mk("2018-01-01T09:00:00Z")}
+	for _, n := range []int{1, 2, 3} {
+		c22Run(c, "weekly", append(data.Snapshots(nil), ny...), data.ExpirePolicy{Weekly: n})
+		c22Run(c, "weekly", append(data.Snapshots(nil), ny2...), data.ExpirePolicy{Weekly: n})
+		c22Run(c, "within-weekly", append(data.Snapshots(nil), ny...), data.ExpirePolicy{WithinWeekly: data.Duration{Years: n}})
+	}
+	// keep-tag together with keep-within: a tagged snapshot outside the window stays
+	ago := func(d int, tags ...string) *data.Snapshot {
+		return &data.Snapshot{Time: time.Now().Add(-time.Duration(d*24+1) * time.Hour).Truncate(time.Second).UTC(), Tags: tags}
+	}
+	for _, d := range []data.Duration{{Days: 3}, {Months: 1}, {Hours: 30}} {
+		c22Run(c, "combined", data.Snapshots{ago(1), ago(2, "a"), ago(40, "a"), ago(41), ago(400, "b", "a")},
+			data.ExpirePolicy{Within: d, Tags: []data.TagList{{"a"}}})
+		c22Run(c, "combined", data.Snapshots{ago(1), ago(2, "a"), ago(40, "a"), ago(41), ago(400, "b", "a")},
+			data.ExpirePolicy{WithinDaily: d, Tags: []data.TagList{{"a", "b"}}, Last: 1})
+	}
 	monthEnd := data.Snapshots{mk("2024-03-31T12:00:00Z"), mk("2024-03-01T12:00:00Z"), mk("2024-02-29T12:00:01Z"), mk("2024-02-29T12:00:00Z"), mk("2024-02-28T12:00:00Z"), mk("2024-01-31T12:00:00Z")}
 	for _, d := range []data.Duration{{Months: 1}, {Days: 30}, {Days: 31}, {Months: 1, Days: 1}, {Years: 1}, {Hours: 24 * 31}, {Months: 13}, {Months: 2}} {
 		c22Run(c, "within", append(data.Snapshots(nil), monthEnd...), data.ExpirePolicy{Within: d})
@@ -310,7 +336,7 @@ func engineC22(c *vctx) error {
 	}
 
 	// ---- generated
-	rounds := c.n(230, 5000)
+	rounds := c.n(200, 5000)
 	for r := 0; r < rounds; r++ {
 		n := g.rng.intn(14)
 		if g.rng.chance(15) {
